@@ -40,7 +40,7 @@ def gen(rng, tier):
     tags, t = [], t0
     for _ in fr:
         tags.append(t); t += 1 if rng.random() < 0.7 else rng.randint(2, 3)
-    return dict(frames=fr, sr=sr, memory=mem, max_size=30, strategy=rng.choice(['recursive', 'nonrecursive', 'numba']),
+    return dict(frames=fr, sr=sr, memory=mem, max_size=linkgen.LIMIT, strategy=rng.choice(['recursive', 'nonrecursive', 'numba']),
                 ndim=ndim, v=v, tags=tags)
 
 
@@ -63,6 +63,11 @@ def jsonable(c, out=None):
 
 
 def run(chk):
+    with linkgen.size_limit(linkgen.LIMIT):
+        return _run(chk)
+
+
+def _run(chk):
     import trackpy as tp
     from trackpy.predict import predictor, NullPredict
     common.quiet_trackpy()
@@ -143,6 +148,11 @@ def run(chk):
 
 
 def replay(chk, path):
+    with linkgen.size_limit(linkgen.LIMIT):
+        return _replay(chk, path)
+
+
+def _replay(chk, path):
     from trackpy.predict import predictor
     common.quiet_trackpy()
     chk.coq()
